@@ -78,6 +78,12 @@ func (g *vxGen) col() {
 	n := g.ident(vxColPool)
 	g.cols = append(g.cols, vxQN{"", n})
 }
+// kcol places a column reference with a fixed, feature-private name (keeps the multi-reference
+// features cheap: one symbolic name per feature, the rest concrete and pairwise distinct)
+func (g *vxGen) kcol(n string) {
+	g.toks = append(g.toks, token.Token{Type: vxIdentType, Literal: n})
+	g.cols = append(g.cols, vxQN{"", n})
+}
 func (g *vxGen) qcol() {
 	q := g.ident(vxTabPool)
 	g.fix(".")
@@ -112,11 +118,18 @@ const (
 	fOrder
 	fOrderFn
 	fDistinctLimit
+	fAggOrder2
+	fJoinCase
+	fCaseSub
 	nFeat
 )
 
+// the nesting-context harnesses keep the first-generation features (the multi-reference features
+// are crossed with every other feature in VxC15_Pair only: cost)
+const nFeatCtx = fAggOrder2
+
 var vxFeatNames = []string{"none", "qcol", "fn", "colalias", "nestfn", "window", "tabalias", "schema", "from2", "join", "leftjoinalias",
-	"joinusing", "join2", "crossjoin", "wherestr", "wherefn", "wherenull", "group", "order", "orderfn", "distinctlimit"}
+	"joinusing", "join2", "crossjoin", "wherestr", "wherefn", "wherenull", "group", "order", "orderfn", "distinctlimit", "aggorder2", "joincase", "casesub"}
 
 func (g *vxGen) sel(f1, f2 int) {
 	has := func(f int) bool { return f1 == f || f2 == f }
@@ -165,6 +178,34 @@ func (g *vxGen) sel(f1, f2 int) {
 		g.col()
 		g.fix(")")
 	}
+	if has(fAggOrder2) { // aggregate with its own multi-key ORDER BY: every key is a column reference
+		g.fix(",")
+		g.fn("fa")
+		g.fix("(")
+		g.col()
+		g.fix("ORDER BY")
+		g.kcol("ka1")
+		g.fix(",")
+		g.kcol("ka2")
+		g.fix(")")
+	}
+	if has(fCaseSub) { // multi-branch CASE whose first branch holds a sub-query
+		g.fix(", CASE WHEN EXISTS ( SELECT")
+		g.col()
+		g.fix("FROM")
+		g.table()
+		g.fix(") THEN")
+		g.kcol("kb1")
+		g.fix("WHEN")
+		g.kcol("kb2")
+		g.fix("=")
+		g.kcol("kb3")
+		g.fix("THEN")
+		g.kcol("kb4")
+		g.fix("ELSE")
+		g.kcol("kb5")
+		g.fix("END")
+	}
 	g.fix("FROM")
 	if has(fSchema) {
 		g.schemaTable()
@@ -186,6 +227,26 @@ func (g *vxGen) sel(f1, f2 int) {
 		g.col()
 		g.fix("=")
 		g.col()
+	}
+	if has(fJoinCase) { // multi-branch CASE inside a join condition
+		g.fix("JOIN")
+		g.table()
+		g.fix("ON CASE WHEN")
+		g.col()
+		g.fix("=")
+		g.kcol("kc1")
+		g.fix("THEN")
+		g.kcol("kc2")
+		g.fix("WHEN")
+		g.kcol("kc3")
+		g.fix("=")
+		g.kcol("kc4")
+		g.fix("THEN")
+		g.kcol("kc5")
+		g.fix("ELSE")
+		g.kcol("kc6")
+		g.fix("END =")
+		g.kcol("kc7")
 	}
 	if has(fLeftJoinAlias) {
 		g.fix("LEFT JOIN")
@@ -710,7 +771,7 @@ func VxC15_Pair() {
 func VxC15_Ctx1() {
 	g := &vxGen{}
 	c := vx.Choice(nCtx)
-	f1 := vx.Choice(nFeat)
+	f1 := vx.Choice(nFeatCtx)
 	g.ctx(c, func() { g.sel(f1, fNone) })
 	g.check()
 }
@@ -728,8 +789,8 @@ func VxC15_Ctx2() {
 func VxC15_CtxPair() {
 	g := &vxGen{}
 	c := vx.Choice(nCtx)
-	f1 := vx.Choice(nFeat)
-	f2 := vx.Choice(nFeat)
+	f1 := vx.Choice(nFeatCtx)
+	f2 := vx.Choice(nFeatCtx)
 	vx.Assume(f1 <= f2)
 	g.ctx(c, func() { g.sel(f1, f2) })
 	g.check()
